@@ -148,6 +148,9 @@ def _NEAR(kind, corpus, wins, cfg, extra, it, eps):
 
 CFGS = list(product_dicts(radii=[[1], [2]], kernel=["flat", "harmonic", "geometric"],
                           orient=["after", "directional"], normwin=[True]))
+# several windows with non-uniform mix weights: the E-step weighs the windows of an occurrence against each other
+MIX_CFGS = [dict(radii=[1, 2], kernel="flat", orient=["before", "after"], normwin=True, mix=[1.0, 5.0]),
+            dict(radii=[2, 1], kernel="harmonic", orient=["after", "directional"], normwin=True, mix=[2.0, 1.0])]
 EPS = [0.0, 0.1, 0.3, 0.5, 1.0]
 EPS_QUICK = [0.0, 0.3, 0.5]
 
@@ -158,7 +161,7 @@ def _cases(tier, kind):
         pairs = list(itertools.product(docs, repeat=2))
         if tier == "quick":
             pairs = [p for p in pairs if len(p[0]) + len(p[1]) <= 4]
-        cfgs = CFGS
+        cfgs = CFGS + MIX_CFGS
         for cfg in cfgs:
             for eps in (EPS_QUICK if tier == "quick" else EPS):
                 for nth in (1, 2):
@@ -168,14 +171,14 @@ def _cases(tier, kind):
                         yield {"kind": kind, "cfg": cfg, "docs": list(p), "eps": eps, "iters": 3 if nth == 1 else 1, "n_threads": nth}
     elif kind == "timed":
         docs = sigma("ab", 3)
-        for cfg in [c for c in CFGS if c["kernel"] != "harmonic"]:
+        for cfg in [c for c in CFGS if c["kernel"] != "harmonic"] + MIX_CFGS[:1]:
             for eps in (0.0, 0.3):
                 for p in itertools.product(docs, repeat=2):
                     times = [[float(i * (1 + (i % 2))) for i in range(len(d))] for d in p]
                     yield {"kind": kind, "cfg": cfg, "docs": list(p), "times": times, "eps": eps, "iters": 2}
     elif kind == "ngram":
         docs = sigma("ab", 4)
-        for cfg in [dict(c, ngram=2) for c in CFGS if c["kernel"] != "geometric"]:
+        for cfg in [dict(c, ngram=2) for c in CFGS + MIX_CFGS if c["kernel"] != "geometric"]:
             for eps in (0.0, 0.3):
                 for p in itertools.product(docs, repeat=2):
                     if tier == "quick" and len(p[0]) + len(p[1]) > 6:
@@ -183,7 +186,7 @@ def _cases(tier, kind):
                     yield {"kind": kind, "cfg": cfg, "docs": list(p), "eps": eps, "iters": 2}
     elif kind == "multiset":
         docs = _multiset_docs("quick")
-        for cfg in [c for c in CFGS if c["kernel"] != "harmonic"]:
+        for cfg in [c for c in CFGS if c["kernel"] != "harmonic"] + MIX_CFGS[:1]:
             for eps in (0.0, 0.3):
                 for d in docs:
                     yield {"kind": kind, "cfg": cfg, "docs": [d], "eps": eps, "iters": 2}
